@@ -458,6 +458,9 @@ def run(gen, scenario, moment=None, reinit=False, idle=8000):
             obs["reinit_view"] = view_at(at)
             await asyncio.sleep(2500 * TICK)         # past one heartbeat interval
             obs["reinit_heartbeats"] = sum(1 for q in env.console.requests[n0:] if q[2] == (0x1F, 0x30))
+            # AirTouch 4: the console pushes no group status in these scenarios, so the 300 s silence poll is due once in the 312 s
+            # (one request belongs to the handshake)
+            obs["reinit_group_requests"] = sum(1 for q in env.console.requests[n0:] if q[2] == (0x2B, None))
             try:
                 await at.shutdown()
                 obs["second_shutdown_raised"] = None
